@@ -156,12 +156,20 @@ MBs(f, n) ==
 
 \* the scenarios selected by the families, as an initial-state predicate (TLC enumerates this form in
 \* milliseconds; a materialised set {s \in Raw : ...} is evaluated eagerly and is 30x slower)
-IsScenario(x) ==
-  \E f \in Fams :
+IsScenarioIn(F, x) ==
+  \E f \in F :
     \E a \in f.Apis, n \in f.NSet, w \in f.WSet, rs \in f.RStopSet, rw \in f.RWSet, re \in f.REndSet, g \in f.GenKSet, c \in f.CtxSet :
       \E m \in MBs(f, n) :
         /\ x = [api |-> a, n |-> n, workers |-> w, mb |-> m, rstop |-> rs, rw |-> rw, rend |-> re, genk |-> g, ctx |-> c]
         /\ Applicable(x) /\ WellFormed(x)
+IsScenario(x) == IsScenarioIn(Fams, x)
+
+\* The written VALUES are not part of a scenario: the contract does not depend on them.  "R1" stands for "the value
+\* of the reducer's first write", whatever it is - in particular the untyped nil, a typed nil pointer or a zero value
+\* (0, "", false): one write of nil is one write (Return(nil) with a nil error, not ErrReduceNoOutput), and a nil
+\* written by a mapper reaches the reducer exactly once like any other value.  The generator adds the value kind as
+\* a dimension of the cases (MRContractGen!Vals); the driver picks the concrete Go values.
+ValueKinds == {"ord", "nil", "typednil", "zero-int", "zero-str", "false"}
 
 MaxN == CHOOSE m \in UNION {f.NSet : f \in Fams} : \A k \in UNION {f.NSet : f \in Fams} : k <= m
 
